@@ -424,6 +424,15 @@ class PPG3204():
             msg = f'The pattern length is out of the range of the PPG3204. Setting to the limits {patt_len}.'
             warnings.warn(msg)
         
+        if patt_len.dtype.kind == 'f': # the length is a whole number of bits (resolution: 1 bit)
+            if np.isnan(patt_len).any():
+                raise ValueError('`patt_len` is not in the correct format')
+            whole = np.rint(patt_len)
+            if (whole != patt_len).any():
+                msg = f'The pattern length must be a whole number of bits. Setting to the nearest values {whole}.'
+                warnings.warn(msg)
+            patt_len = whole.astype(int)
+        
         for ch, pl in zip(CHs, patt_len):
             self._query(f':DIG{ch}:PATT:LENG {pl}')
 
